@@ -17,9 +17,13 @@ func c07Use(idx int, argVar, argVal string) (src, want string, mustFail bool) {
 	switch slots {
 	case 1, 3, 4:
 		nm := symLetter("slot") // a is declared by the component; b, c, d are not
-		if vChoice("empty-named-slot", 2) == 1 {
+		switch vChoice("empty-named-slot", 3) {
+		case 1:
 			src += "@slot(\"" + nm + "\")@end"
-		} else {
+		case 2: // the body ends in a nested block, so its last token is an @end too
+			src += "@slot(\"" + nm + "\")N" + tag + "@if(true){{ " + argVar + " }}@end@end"
+			named = "N" + tag + argVal
+		default:
 			src += "@slot(\"" + nm + "\")N" + tag + "{{ " + argVar + " }}@end"
 			named = "N" + tag + argVal
 		}
@@ -62,7 +66,20 @@ func HarnessC07Component() {
 	vfsWriteFile("templates/components/pair.tw", "{{ a }}/{{ t }}")
 	vfsWriteFile("templates/components/card.v2.tw", "<v2>{{ t }}</v2>")
 	clash := false
-	switch vChoice("page", 8) {
+	vfsWriteFile("templates/components/cnt.tw", "{{ n = n + 1 }}<{{ n }}>")
+	vfsWriteFile("templates/components/set.tw", "{{ t = x }}[{{ t }}]")
+	switch vChoice("page", 11) {
+	case 8: // uses without arguments are independent of each other: what the component file assigns stays inside the use
+		page = "@component(\"~cnt\")@component(\"~cnt\")@component(\"~cnt\")"
+		data["n"] = 0
+		want = "<1><1><1>"
+	case 9:
+		page = "@each(v in vs)@component(\"~cnt\");@end"
+		data["n"] = 5
+		want = "<6>;<6>;"
+	case 10:
+		page = "{{ t = \"P\" }}@component(\"~set\")|{{ t }}|@component(\"~set\")"
+		want = "[" + x + "]|P|[" + x + "]"
 	case 7: // an argument named like a surrounding variable of another type: bound (or refused), never silently dropped
 		clash = true
 		page = "{{ t = 1 }}A@component(\"~comp\", {t: x})B"
